@@ -330,6 +330,14 @@ def norm(x):
   return ('other', type(x).__name__)
 
 
+def solve_unsafe(d):
+  """SciPy 1.18's SLSQP corrupts the heap (process abort: 'double free or corruption') when there are more equality constraints
+  than variables together with inequality constraints, e.g. a sub-balanced set over one storage row with eq label constraints.
+  Such a solve is replaced by the read of the constraints it starts with (reported to the lead; C05's business)."""
+  cs = d.constraints
+  return sum(1 for c in cs if c['type'] == 'eq') > int(d.shape[0]) * int(d.shape[1])
+
+
 def call(nd, op):
   """Run one API call on a node. Returns the normalised result (exceptions are results)."""
   from device_kit import solve, utils
@@ -367,6 +375,8 @@ def call(nd, op):
     if k == 'todict':
       return norm(d.to_dict())
     if k == 'solve':
+      if solve_unsafe(d):
+        return ('skip', 'more equality constraints than variables')
       x, o = solve(d, p=P)
       return norm([np.array(x), o])
   except Exception as e:
@@ -450,19 +460,20 @@ def run_history(c, per_call_twin=True, stop_at_first=False):
   arrays0 = [flat(o) for _, o in reg.arrays]
   twins = []
   if per_call_twin:
-    for op in ops:
-      twins.append(build_scn(T, probes) if op['k'] != 'evict' else None)
+    for j, op in enumerate(ops):   # every call of the first 12, every third one after that (long thorough histories)
+      twins.append(build_scn(T, probes) if op['k'] != 'evict' and (j < 12 or j % 3 == 0) else None)
   # normalise the lru tables: exactly the scenario's keys are present
   utils.sustainment_matrix.cache_clear()
   utils.power_matrix.cache_clear()
   for s, n in reg.keys:
     utils.sustainment_matrix(s, n)
-  steps = []
+  steps, eff_ops = [], []
   before = cells(reg)
   model_upto, model_cells = None, None
   for j, op in enumerate(ops):
     nd = reg.nodes[op['node'] % len(reg.nodes)]
     res = call(nd, op)
+    eff_ops.append(dict(op, k='readcons') if res[0] == 'skip' else op)
     after = cells(reg)
     ev, nsus, npow = diff_events(before, after)
     if op['k'] == 'evict':
@@ -524,7 +535,8 @@ def run_history(c, per_call_twin=True, stop_at_first=False):
     if snap(obj) != s0:
       problems.append('caller data %s is not bit-identical to its deep copy / lost identity' % name)
       break
-  return {'reg': reg, 'steps': steps[:model_upto], 'final': final, 'problems': problems, 'arrays0': arrays0, 'model_upto': model_upto}
+  return {'reg': reg, 'steps': steps[:model_upto], 'final': final, 'problems': problems, 'arrays0': arrays0, 'model_upto': model_upto,
+          'eff_ops': eff_ops}
 
 
 # =====================================================================================================================
@@ -633,7 +645,8 @@ def observe(c):
       raise RuntimeError('state-inventory: %d in-place write site(s) not in corpus/C12/write_sites.json, e.g. %s' % (len(new_api), new_api[:3]))
     return {'inventory': True, 'new_tooling': new_tool, 'gone': gone}
   h = run_history(c, per_call_twin=c.get('twin', True))
-  return {'steps': h['steps'], 'final': h['final'], 'problems': h['problems'], 'reg': h['reg'], 'arrays0': h['arrays0'], 'model_upto': h['model_upto']}
+  return {'steps': h['steps'], 'final': h['final'], 'problems': h['problems'], 'reg': h['reg'], 'arrays0': h['arrays0'], 'model_upto': h['model_upto'],
+          'eff_ops': h['eff_ops']}
 
 
 def coq_event(e):
@@ -683,7 +696,7 @@ def coq_case(c, o):
   init = ('(Build_st %s %s %s %s (map (fun k => (k, sus_value sc k)) (seq 0 %d%%nat)) %s %s)'
           % (cq(dicts0), cq(adcons0), cq(lists0), cq(polys), len(reg.keys),
              cq([Raw('(%d%%nat, pow_matrix %d%%nat)' % (l, l)) for l in pow_ls]), cq(o['arrays0'])))
-  steps = [(coq_op(op, nn), ([coq_event(e) for e in st['events']], N(st['nsus']), N(st['npow']))) for op, st in zip(c['ops'][:o['model_upto']], o['steps'])]
+  steps = [(coq_op(op, nn), ([coq_event(e) for e in st['events']], N(st['nsus']), N(st['npow']))) for op, st in zip(o['eff_ops'][:o['model_upto']], o['steps'])]
   f = o['final']
   opt = lambda m: Raw('None') if m is None else Some(m)
   fin = ([(opt(a), opt(b)) for a, b in f['polys']], [coq_dict_obs(x) for x in f['dicts']], [[N(i) for i in l] for l in f['adcons']],
